@@ -41,7 +41,7 @@ POLYGONS = [
     [[10, 30], [100, 30], [100, 60], [10, 60], [10, 30]],                 # an explicitly closed ring (as shapely hands them out)
     [[20.2, 40.4], [100, 30], [100, 60], [10, 60], [19.8, 39.6]],         # first and last point coincide only after rounding
 ]
-HEIGHTS = [[10, 3], [7.26, 2.04], [7.25, 2.05], 'f32', None]
+HEIGHTS = [[10, 3], [7.26, 2.04], [7.25, 2.05], 'f32', None, [0, 0], [0.04, 0.02], [12.5, 0]]      # incl. zero / sub-precision heights (present, not absent)
 TEXTS = [None, '', 'abc', '<&>"\'', ' lead', 'trail ', 'a  b', 'a\tb', 'a\nb', 'a\rb', 'a b', 'é', 'שלום', 'مرحبا',
          '\U0001F600\U00020000', ']]>', '�\x85 ', ' ', '\u00a0\u3000', ' \t ']      # ... and transcriptions made of white space only
 CONFS = [None, 0, 1, 0.12345, 0.9995, 1e-9]
@@ -158,7 +158,11 @@ def run_shard(shard, ctx, tier):
                         case['regions'][path[1]]['lines'][path[2]][path[3]] = v
                 guarded_check(mod, case, ctx)
     else:
-        for h, t, c, ix in itertools.product(range(len(HEIGHTS)), range(len(TEXTS)), range(len(CONFS)), range(len(INDEXES))):
+        full = itertools.product(range(len(HEIGHTS)), range(len(TEXTS)), range(len(CONFS)), range(len(INDEXES)))
+        if tier != 'thorough':
+            # quick tier: heights x (default text fields) and (text x confidence x index) x (two heights) instead of the full product
+            full = [q for q in full if (q[1] == 0 and q[2] == 0 and q[3] == 0) or q[0] in (0, 5)]
+        for h, t, c, ix in full:
             ln = {'bl': shard['bl'], 'poly': shard['poly'], 'h': h, 't': t, 'c': c, 'idx': ix}
             for ver in (0, 1):
                 guarded_check(mod, {'pid': 0, 'regions': [{'type': 0, 'rpoly': 0, 'rtext': 0, 'lines': [ln]}], 'ro': None,
